@@ -67,7 +67,7 @@ class C04(Check):
             yield dict(kind="nz", seed=seed * 1009 + i, ref=bool(i % 2), unk=bool((i // 2) % 2))
         for i in range(60 if q else 2000):
             yield dict(kind="normalise", seed=seed * 1013 + i)
-        for i in range(6 if q else 150):
+        for i in range(16 if q else 400):
             yield dict(kind="e2e", seed=seed * 1019 + i)
 
     def setup_worker(self):
@@ -230,12 +230,36 @@ class C04(Check):
         edges = [0.1, 0.4, 0.7, 1.0]
         cfg = Configuration.create(rmin=0.05, rmax=0.8, unit="deg", edges=edges, closed=str(rng.choice(["left", "right"])))
 
+        sparse = bool(rng.random() < 0.6)
+
         def mk(tmp, name, n, z, w):
-            xyz, _ = cats.points_around(rng, centres, n, r)
+            xyz, src = cats.points_around(rng, centres, n, r)
             xyz = np.concatenate([xyz, centres])
+            src = np.concatenate([src, np.arange(P)])
             ra, dec = gen.xyz_to_radec(xyz)
-            return cats.create(tmp / name, cats.table(ra, dec, z=rng.uniform(0.1, 1.0, len(ra)) if z else None,
+            zz = rng.uniform(0.1, 1.0, len(ra)) if z else None
+            if z and sparse:
+                # the first redshift bin is empty in the first patch (and nearly empty elsewhere)
+                zz[(src == 0) & (zz < 0.4)] = rng.uniform(0.41, 1.0, int(((src == 0) & (zz < 0.4)).sum()))
+            return cats.create(tmp / name, cats.table(ra, dec, z=zz,
                                                       w=rng.uniform(0.5, 2, len(ra)) if w else None), centers=cobj)
+
+        def record_term(nc, cat1, cat2, binned2):
+            """total pair count / product of the total weights of the two samples as recounted
+            from the catalogs' records (not from the sums stored with the counts)."""
+            from oracles.binrule import bin_members
+
+            r1, r2 = cats.records(cat1), cats.records(cat2)
+            w1 = np.ones(len(r1["ra"])) if r1["w"] is None else r1["w"]
+            w2 = np.ones(len(r2["ra"])) if r2["w"] is None else r2["w"]
+            m1 = bin_members(r1["z"], edges, cfg.binning.closed)
+            m2 = bin_members(r2["z"], edges, cfg.binning.closed) if binned2 else [np.ones(len(w2), bool)] * len(m1)
+            out_ = np.empty(len(m1))
+            for b in range(len(m1)):
+                t1, t2 = w1[m1[b]].sum(), w2[m2[b]].sum()
+                den = t1 * t1 / 2.0 if nc.auto else t1 * t2
+                out_[b] = np.float64(nc.counts.counts[b].sum()) / np.float64(den)
+            return out_
 
         with Scratch("c04") as tmp:
             ref, unk = mk(tmp, "ref", 40, True, True), mk(tmp, "unk", 50, False, bool(rng.random() < 0.5))
@@ -247,6 +271,23 @@ class C04(Check):
             counters["e2e_measurements"] = counters.get("e2e_measurements", 0) + 2
             cd = self._check_estimator(cross, bad, counters, tag=":e2e")
             ad = self._check_estimator(auto, bad, counters, tag=":e2e")
+            # the same estimators with the normalisation recounted from the input records
+            pairs_of = dict(dd=(ref, unk, False), dr=(ref, ur, False), rd=(rr, unk, False), rr=(rr, ur, False))
+            terms = {k: record_term(nc, *pairs_of[k]) for k, nc in cross.to_dict().items()}
+            wants = jack.estimator(terms)
+            scale = jack.estimator_scale(terms)
+            ok = np.isfinite(scale) & np.all([np.isfinite(t) for t in terms.values()], axis=0)
+            if cd is not None and wants and ok.any() and not any(
+                    close_abs(cd.data[ok], w_[ok], np.maximum(scale[ok], 1.0), rel=1e-9) for w_ in wants):
+                bad("estimator:value-wrong-vs-input-records:cross:e2e", dict(got=cd.data.tolist(), want=[w_.tolist() for w_ in wants], sparse=sparse))
+            apairs = dict(dd=(ref, ref, True), dr=(ref, rr, True), rr=(rr, rr, True))
+            terms = {k: record_term(nc, *apairs[k]) for k, nc in auto.to_dict().items()}
+            wants = jack.estimator(terms)
+            scale = jack.estimator_scale(terms)
+            ok = np.isfinite(scale) & np.all([np.isfinite(t) for t in terms.values()], axis=0)
+            if ad is not None and wants and ok.any() and not any(
+                    close_abs(ad.data[ok], w_[ok], np.maximum(scale[ok], 1.0), rel=1e-9) for w_ in wants):
+                bad("estimator:value-wrong-vs-input-records:auto:e2e", dict(got=ad.data.tolist(), want=[w_.tolist() for w_ in wants], sparse=sparse))
             nz = RedshiftData.from_corrfuncs(cross, auto)
             dz = np.diff(edges)
             want = cd.data / np.sqrt(dz**2 * ad.data)
